@@ -182,6 +182,13 @@ func init() {
 			}
 			return s
 		},
+		"(*sync.Mutex).Lock":      func(fr *frame, a []value) value { mutexLock(fr.i, a[0].(*value), false); return nil },
+		"(*sync.Mutex).TryLock":   func(fr *frame, a []value) value { return mutexLock(fr.i, a[0].(*value), true) },
+		"(*sync.Mutex).Unlock":    func(fr *frame, a []value) value { mutexUnlock(fr.i, a[0].(*value)); return nil },
+		"(*sync.RWMutex).Lock":    func(fr *frame, a []value) value { mutexLock(fr.i, a[0].(*value), false); return nil },
+		"(*sync.RWMutex).Unlock":  func(fr *frame, a []value) value { mutexUnlock(fr.i, a[0].(*value)); return nil },
+		"(*sync.RWMutex).RLock":   func(fr *frame, a []value) value { mutexLock(fr.i, a[0].(*value), false); return nil },
+		"(*sync.RWMutex).RUnlock": func(fr *frame, a []value) value { mutexUnlock(fr.i, a[0].(*value)); return nil },
 		"internal/race.Enabled": nil,
 		"unsafe.String":         nil,
 		"strings.(*Builder).copyCheck": func(fr *frame, a []value) value { return nil },
@@ -285,4 +292,54 @@ func bytesCompare(i *interpreter, a, b []value) value {
 		return 1
 	}
 	return 0
+}
+
+// Mutexes are engine objects keyed by the address of the sync.Mutex value (RWMutex is
+// modelled as an exclusive lock, which only removes reader/reader concurrency).
+type mutexState struct {
+	locked bool
+	owner  int
+	vc     vclock
+}
+
+func (i *interpreter) mutex(p *value) *mutexState {
+	if i.mutexes == nil {
+		i.mutexes = map[*value]*mutexState{}
+	}
+	m := i.mutexes[p]
+	if m == nil {
+		m = &mutexState{}
+		i.mutexes[p] = m
+	}
+	return m
+}
+
+func mutexLock(i *interpreter, p *value, try bool) value {
+	if p == nil {
+		panic(runtimeError("invalid memory address or nil pointer dereference"))
+	}
+	m := i.mutex(p)
+	i.yield("mutex lock")
+	if m.locked {
+		if try {
+			return false
+		}
+		i.block("mutex lock", func() bool { return !m.locked })
+	}
+	m.locked = true
+	if i.cur != nil {
+		m.owner = i.cur.id
+	}
+	i.acquire(&m.vc)
+	return true
+}
+
+func mutexUnlock(i *interpreter, p *value) {
+	m := i.mutex(p)
+	if !m.locked {
+		panic(targetPanic{iface{i.runtimeErrorString, "sync: unlock of unlocked mutex"}})
+	}
+	i.release(&m.vc)
+	m.locked = false
+	i.yield("mutex unlock")
 }
